@@ -50,7 +50,35 @@ def main(argv=None):
                 print('replay: no violation for %s on the current tree' % args.replay)
             return 1 if viols else 0
         res = mod.run(args.tier, seed)
-        return core.finish(res, args.tier, seed, mod.LEVEL, t0, getattr(mod, 'TECHNIQUE', ''))
+        rc_extra = 0
+        # second, equally exhaustive, hash-seed environment for the set-order dependent families (thorough tier)
+        if args.tier == 'thorough' and not os.environ.get('VERIF_EVIDENCE_OUT'):
+            import subprocess
+            import tempfile
+            for hs in getattr(mod, 'EXTRA_HASHSEEDS', ()):
+                tmp = tempfile.NamedTemporaryFile(prefix='verif_child_', suffix='.json', delete=False)
+                tmp.close()
+                env = dict(os.environ)
+                env['PYTHONHASHSEED'] = str(hs)
+                env['VERIF_EVIDENCE_OUT'] = tmp.name
+                p = subprocess.run([sys.executable, '-m', 'mc.check', args.prop, '--tier', getattr(mod, 'EXTRA_HASHSEED_TIER', 'quick'),
+                                    '--hashseed', str(hs)], env=env, capture_output=True, text=True)
+                for line in p.stdout.splitlines():
+                    if line.startswith('VIOLATION') or line.startswith('KNOWN-FINDING') or line.startswith('  signature'):
+                        print(line)
+                if p.returncode == 2:
+                    sys.stderr.write(p.stderr)
+                    raise RuntimeError('child run under PYTHONHASHSEED=%s failed' % hs)
+                rc_extra = max(rc_extra, p.returncode)
+                try:
+                    with open(tmp.name) as f:
+                        child = json.load(f)
+                    res.extra['hashseed_%s' % hs] = {'tier': child['tier'], 'evaluations': child['coverage']['evaluations'],
+                                                     'violations': child.get('violations'), 'wall_s': child['wall_s']}
+                finally:
+                    os.unlink(tmp.name)
+        rc = core.finish(res, args.tier, seed, mod.LEVEL, t0, getattr(mod, 'TECHNIQUE', ''))
+        return max(rc, rc_extra)
     except SystemExit:
         raise
     except BaseException:
